@@ -27,12 +27,39 @@
 (* consulted first, so that pattern takes every stanza. Deliberately outside the alphabet (property silent, see REPORT-serve.md): *)
 (* iq stanzas with a missing/unknown type, get/set/error iqs without payload or with *)
 (* a text payload (C07/C09 territory), handlers that return errors.                  *)
+(*                                                                                   *)
+(* NESTED ROUTING (session 4).  A ServeMux is a table that is fixed once it is made;  *)
+(* nothing in its documentation restricts it to one stanza at a time: the same       *)
+(* multiplexer serves every session of a server, and a handler may hand an embedded  *)
+(* stanza (a forwarded message, a carbon copy) to the multiplexer that called it.    *)
+(* The machine therefore lets the handler chosen for child payload i of a message /  *)
+(* presence A route ANOTHER stanza B through the same table - before it reads what   *)
+(* it was handed ("pre") or after ("post") - and go on afterwards: Reenter / Resume,  *)
+(* the suspended routing of A is the frame `outer`.  Every property is stated per    *)
+(* stanza (owner[i] says which one invocation i belongs to): B's handlers are handed *)
+(* the whole B, A's handlers - also those of the children after i - the whole A from *)
+(* its start element, and the invocations of each are those it has alone.            *)
+(* Deviation "SharedBuffer" (code-like: the replay buffer's storage belongs to the    *)
+(* multiplexer and is reused by the next stanza) must violate C14_WholeStanza.       *)
+(*                                                                                   *)
+(* CONSTRUCTION (session 4).  ServeMux is an exported struct whose zero value is      *)
+(* usable and an Option is an exported func on a pointer to it: a multiplexer is made *)
+(* "new" mux.New(ns, options...), "zero" options applied to &mux.ServeMux{} (the     *)
+(* pattern tables are allocated lazily for exactly that), "late" mux.New(ns) and the *)
+(* options applied to the result afterwards, "afteruse" some patterns registered,    *)
+(* an element routed, then the remaining patterns registered (Reopen).  What is      *)
+(* looked up depends on the table alone: no property below mentions ctor.            *)
+(* Deviation "RoutersMadeByNew" (code-like: the three stanza routers are values made *)
+(* once by New) must violate C14_Defaults / C14_IsDispatch for ctor = "zero".        *)
 EXTENDS Integers, Sequences, FiniteSets, TLC
 
 CONSTANTS Universe,    \* patterns that may be registered (bound of the design check)
           Elements,    \* incoming elements (bound of the design check)
           Hids,        \* handler identities available for registration
-          Progs        \* "all" or "L": which consumption programs the design check explores
+          Progs,       \* "all" | "few" | "L": which consumption programs the design check explores
+          Inner,       \* stanzas a message / presence handler may route through the same multiplexer ({}: no nested routing)
+          Ctors,       \* ways the multiplexer is made (see CONSTRUCTION below)
+          Dev          \* named deviations ({}: the property)
 
 ---------------------------------------------------------------------------
 (* Names, patterns, elements *)
@@ -104,7 +131,9 @@ Tok(k, n) == <<k, n.sp, n.lo>>
 KidToks(c) == IF IsTxt(c) THEN <<Tok("t", NoName)>> ELSE <<Tok("s", c), Tok("e", c)>>
 RECURSIVE Flat(_)
 Flat(ks) == IF ks = <<>> THEN <<>> ELSE KidToks(Head(ks)) \o Flat(Tail(ks))
-Tokens(el) == <<Tok("S", NoName)>> \o Flat(el.kids) \o <<Tok("E", NoName)>>
+(* the start element carries the stanza's identity (its id attribute): "the complete stanza from ITS start element" *)
+StartTok(el) == <<"S", "", el.id>>
+Tokens(el) == <<StartTok(el)>> \o Flat(el.kids) \o <<Tok("E", NoName)>>
 
 Min(a, b) == IF a < b THEN a ELSE b
 Max(a, b) == IF a > b THEN a ELSE b
@@ -148,6 +177,23 @@ Dispatch(P, el, progs) ==
       wire |-> IF top = NoPat /\ k = "iq" /\ hs = <<>> /\ t \in {"get", "set"}
                THEN <<SUReply(el)>> ELSE <<>>]
 
+(* Nested routing: the handler of invocation number `at` of stanza a routes stanza b through the same table, *)
+(* before ("pre") or after ("post") it reads what it was handed.  Every stanza is dispatched as it is alone;   *)
+(* the invocations for b lie between those of a (j of a's invocations are complete when b is routed); wire2 is *)
+(* what the multiplexer writes for b (to b's own encoder).  No such invocation, or not a message / presence     *)
+(* handler: b is never routed.                                                                                 *)
+NoNestEl == El("none", "", "", "", "", "", <<>>)
+(* (da, db: the two dispatches, evaluated once by the caller) *)
+EnteredD(da, at) == at >= 1 /\ at <= Len(da.inv) /\ da.inv[at].h.kind \in {"msg", "pres"}
+NestedD(da, j, nested, db) ==
+  IF ~nested THEN [inv |-> da.inv, wire |-> da.wire, wire2 |-> <<>>]
+  ELSE [inv |-> SubSeq(da.inv, 1, j) \o db.inv \o SubSeq(da.inv, j + 1, Len(da.inv)), wire |-> da.wire, wire2 |-> db.wire]
+Nested(P, a, pa, j, b, pb) == NestedD(Dispatch(P, a, pa), j, b # NoNestEl, IF b = NoNestEl THEN [inv |-> <<>>, wire |-> <<>>] ELSE Dispatch(P, b, pb))
+NestedAt(P, a, pa, at, when, b, pb) ==
+  LET da == Dispatch(P, a, pa)
+      in == EnteredD(da, at)
+  IN NestedD(da, IF when = "pre" THEN at - 1 ELSE at, in, IF in THEN Dispatch(P, b, pb) ELSE [inv |-> <<>>, wire |-> <<>>])
+
 (* A stanza whose only content is text is neither "empty" nor has a child payload:   *)
 (* the property does not say whether the type wildcard sees it; both are accepted.   *)
 TextOnly(el) == el.kind \in {"msg", "pres"} /\ el.kids # <<>> /\ ElemKids(el) = <<>>
@@ -178,37 +224,60 @@ VARIABLES
   name,     \* the name being looked up
   step,     \* cascade step 0..3
   chosen,   \* result of the current lookup
-  buf,      \* number of stanza tokens in the replay buffer (read so far from the stream)
+  buf,      \* the replay buffer: the stanza tokens read so far from the stream (the handlers' readers replay it)
   progs,    \* history: consumption programs of the invocations so far
   log,      \* handler invocations so far
-  wire      \* elements written by the multiplexer itself
+  wire,     \* elements written by the multiplexer itself (for the stanza being routed)
+  ctor,     \* how the multiplexer was made (constant during a run)
+  uses,     \* number of elements routed before the one being routed ("afteruse": 0 or 1)
+  outer,    \* nested routing: the suspended routing of the outer stanza (NoFrame: none)
+  nest,     \* history of the nested routing: the inner stanza, outer invocations complete before it, what was written for it
+  owner     \* history: owner[i] = 1 if invocation log[i] is for the outer (or only) stanza, 2 if for the nested one
 
-vars == <<table, lastReg, phase, el, pos, name, step, chosen, buf, progs, log, wire>>
-View == <<table, phase, el, pos, name, step, chosen, buf, progs, log, wire>>   \* lastReg is write-only history
+vars == <<table, lastReg, phase, el, pos, name, step, chosen, buf, progs, log, wire, outer, nest, owner, ctor, uses>>
+View == <<table, phase, el, pos, name, step, chosen, buf, progs, log, wire, outer, nest, owner, ctor, uses>>   \* lastReg is write-only history
+cvars == <<ctor, uses>>
+nvars == <<outer, nest, owner, ctor, uses>>
 
-NoEl == El("none", "", "", "", "", "", <<>>)
+NoEl == NoNestEl
 Pats == DOMAIN table
+NoFrame == [phase |-> "none"]
+NoNest == [el |-> NoEl, j |-> 0, wire |-> <<>>, done |-> FALSE]
+Depth == IF outer = NoFrame THEN 1 ELSE 2
+ElOf(d) == IF d = 2 THEN nest.el ELSE IF outer = NoFrame THEN el ELSE outer.el
+(* the entries of a history sequence that belong to the stanza of depth d *)
+Sel(q, d) == LET F[i \in 0..Len(q)] == IF i = 0 THEN <<>> ELSE IF owner[i] = d THEN Append(F[i - 1], q[i]) ELSE F[i - 1]
+             IN F[Len(q)]
+MyLog == Sel(log, Depth)
+MyProgs == Sel(progs, Depth)
+
+(* the buffer grows by what is read from the stream: the stanza's own next tokens *)
+Extend(b, e, n) == IF n > Len(b) THEN b \o SubSeq(Tokens(e), Len(b) + 1, n) ELSE b
+(* storage of buffer a after b was written over its beginning *)
+Overwrite(a, b) == [i \in 1..Len(a) |-> IF i <= Len(b) THEN b[i] ELSE a[i]]
 
 Init ==
   /\ table = [q \in {} |-> "h"] /\ lastReg = [p |-> NoPat, h |-> "none", ok |-> FALSE]
   /\ phase = "reg" /\ el = NoEl /\ pos = 0 /\ name = NoName /\ step = 0 /\ chosen = NoPat
-  /\ buf = 0 /\ progs = <<>> /\ log = <<>> /\ wire = <<>>
+  /\ buf = <<>> /\ progs = <<>> /\ log = <<>> /\ wire = <<>>
+  /\ outer = NoFrame /\ nest = NoNest /\ owner = <<>>
+  /\ ctor \in Ctors /\ uses = 0
 
 (* mux.Handle / mux.IQ / mux.Message / mux.Presence: refuse nil and duplicates *)
 Register(p, h) ==
   /\ phase = "reg"
   /\ lastReg' = [p |-> p, h |-> h, ok |-> RegOK(table, p, h)]
   /\ table' = RegApply(table, p, h)
-  /\ UNCHANGED <<phase, el, pos, name, step, chosen, buf, progs, log, wire>>
+  /\ UNCHANGED <<phase, el, pos, name, step, chosen, buf, progs, log, wire, nvars>>
 
 Seal == phase = "reg" /\ phase' = "idle"
-        /\ UNCHANGED <<table, lastReg, el, pos, name, step, chosen, buf, progs, log, wire>>
+        /\ UNCHANGED <<table, lastReg, el, pos, name, step, chosen, buf, progs, log, wire, nvars>>
 
 (* ServeMux.HandleXMPP: start with the top-level lookup on the element's own name *)
 Receive(e) ==
   /\ phase = "idle"
   /\ el' = e /\ phase' = "top" /\ name' = Nm(e.sp, e.lo) /\ step' = 0
-  /\ UNCHANGED <<table, lastReg, pos, chosen, buf, progs, log, wire>>
+  /\ UNCHANGED <<table, lastReg, pos, chosen, buf, progs, log, wire, nvars>>
 
 LKind == IF phase = "top" THEN "top" ELSE el.kind
 
@@ -224,13 +293,15 @@ Try ==
         ELSE \* no match at all: defaults
           /\ chosen' = NoPat /\ UNCHANGED <<step>>
           /\ IF phase = "top"
-             THEN /\ phase' = IF el.kind \in StanzaKinds THEN "router" ELSE "done"
-                  /\ UNCHANGED <<wire, pos, name>>
+             THEN IF "RoutersMadeByNew" \in Dev /\ ctor = "zero" /\ el.kind \in StanzaKinds
+                  THEN phase' = "done" /\ wire' = <<[SUReply(el) EXCEPT !.name = "panic"]>> /\ UNCHANGED <<pos, name>>   \* no router in a value New did not make
+                  ELSE /\ phase' = IF el.kind \in StanzaKinds THEN "router" ELSE "done"
+                       /\ UNCHANGED <<wire, pos, name>>
              ELSE IF el.kind = "iq"
              THEN /\ wire' = IF EffType(el) \in {"get", "set"} THEN <<SUReply(el)>> ELSE <<>>   \* iqFallback
                   /\ phase' = "done" /\ UNCHANGED <<pos, name>>
              ELSE /\ phase' = "router" /\ UNCHANGED <<wire, pos, name>>                        \* nopHandler: next child
-  /\ UNCHANGED <<table, lastReg, el, buf, progs, log>>
+  /\ UNCHANGED <<table, lastReg, el, buf, progs, log, nvars>>
 
 (* iqRouter / forChildren: pick the next name to look up *)
 Router ==
@@ -241,19 +312,34 @@ Router ==
           /\ phase' = "lookup" /\ step' = 0
      ELSE IF el.kids = <<>>
      THEN \* only start and end token: the type wildcard pass (once)
-          IF pos = 0 THEN /\ pos' = 1 /\ name' = NoName /\ buf' = 2 /\ phase' = "lookup" /\ step' = 0
+          IF pos = 0 THEN /\ pos' = 1 /\ name' = NoName /\ buf' = Extend(buf, el, 2) /\ phase' = "lookup" /\ step' = 0
           ELSE /\ phase' = "done" /\ UNCHANGED <<pos, name, buf, step>>
      ELSE IF pos < Len(el.kids)
      THEN \* the iterator skips the rest of the previous child, then reads the next token
           LET c == el.kids[pos + 1]
               upto == 1 + Len(Flat(SubSeq(el.kids, 1, pos))) + 1      \* tokens up to and including c's first
-          IN /\ pos' = pos + 1 /\ buf' = Max(buf, upto)
+          IN /\ pos' = pos + 1 /\ buf' = Extend(buf, el, upto)
              /\ IF IsTxt(c) THEN UNCHANGED <<phase, name, step>>      \* not an element: skipped
                 ELSE name' = c /\ phase' = "lookup" /\ step' = 0
-     ELSE /\ phase' = "done" /\ buf' = Len(Tokens(el)) /\ UNCHANGED <<pos, name, step>>
-  /\ UNCHANGED <<table, lastReg, el, chosen, progs, log, wire>>
+     ELSE /\ phase' = "done" /\ buf' = Extend(buf, el, Len(Tokens(el))) /\ UNCHANGED <<pos, name, step>>
+  /\ UNCHANGED <<table, lastReg, el, chosen, progs, log, wire, nvars>>
 
-ProgChoices == IF Progs = "all" THEN 0..(Len(Tokens(el)) + 1) ELSE {Len(Tokens(el))}
+ProgChoices == IF Progs = "all" THEN 0..(Len(Tokens(el)) + 1)
+               ELSE IF Progs = "few" THEN {0, 2, Len(Tokens(el))} ELSE {Len(Tokens(el))}
+
+(* what a reader that replays buffer b and then continues on the stream of stanza e obtains from k reads *)
+ReadVia(b, e, k) ==
+  LET L == Len(Tokens(e))  n == Min(k, L)
+  IN [view |-> [j \in 1..n |-> IF j <= Len(b) THEN b[j] ELSE Tokens(e)[j]], buf |-> Extend(b, e, n), eof |-> k > L]
+
+(* nested routing: the running handler of the outer stanza hands stanza e to the same multiplexer; the routing  *)
+(* of the outer stanza (frame: phase ph to continue in, buffer b) is suspended; j of its invocations are logged *)
+CanEnter == outer = NoFrame /\ nest = NoNest /\ el.kind \in {"msg", "pres"} /\ chosen.kind \in {"msg", "pres"}
+Enter(e, ph, b, j) ==
+  /\ outer' = [phase |-> ph, el |-> el, pos |-> pos, name |-> name, step |-> step, chosen |-> chosen, buf |-> b, wire |-> wire]
+  /\ nest' = [NoNest EXCEPT !.el = e, !.j = j]
+  /\ el' = e /\ phase' = "top" /\ name' = Nm(e.sp, e.lo) /\ step' = 0 /\ pos' = 0 /\ chosen' = NoPat
+  /\ buf' = <<>> /\ wire' = <<>>
 
 (* the chosen handler runs; a message/presence handler reads k tokens through a      *)
 (* fresh reader that first replays the buffer (from the start element) and then      *)
@@ -262,21 +348,48 @@ Invoke ==
   /\ phase = "invoke"
   /\ IF chosen.kind \in {"msg", "pres"}
      THEN \E k \in ProgChoices :
-            LET L == Len(Tokens(el))
-                view == [j \in 1..Min(k, L) |-> Tokens(el)[j]]  \* j <= buf: replayed, else read now
-            IN /\ log' = Append(log, [h |-> chosen, seen |-> view, eof |-> k > L])
-               /\ progs' = Append(progs, k)
-               /\ buf' = Max(buf, Min(k, L))
+            LET r == ReadVia(buf, el, k)         \* j <= Len(buf): replayed, else read now
+            IN /\ log' = Append(log, [h |-> chosen, seen |-> r.view, eof |-> r.eof])
+               /\ progs' = Append(progs, k) /\ owner' = Append(owner, Depth)
+               /\ \/ /\ buf' = r.buf /\ phase' = "router"
+                     /\ UNCHANGED <<el, pos, name, step, chosen, wire, outer, nest>>
+                  \/ /\ CanEnter                 \* "post": having read, the handler routes another stanza before it returns
+                     /\ \E e \in Inner : Enter(e, "router", r.buf, Len(log) + 1)
      ELSE /\ log' = Append(log, [h |-> chosen, seen |-> <<>>, eof |-> FALSE])
-          /\ progs' = Append(progs, 0) /\ UNCHANGED buf
-  /\ phase' = IF chosen.kind \in {"msg", "pres"} THEN "router" ELSE "done"
-  /\ UNCHANGED <<table, lastReg, el, pos, name, step, chosen, wire>>
+          /\ progs' = Append(progs, 0) /\ owner' = Append(owner, Depth) /\ phase' = "done"
+          /\ UNCHANGED <<buf, el, pos, name, step, chosen, wire, outer, nest>>
+  /\ UNCHANGED <<table, lastReg, cvars>>
+
+(* "pre": the chosen handler routes another stanza before it reads what it was handed *)
+ReenterPre ==
+  /\ phase = "invoke" /\ CanEnter
+  /\ \E e \in Inner : Enter(e, "invoke", buf, Len(log))
+  /\ UNCHANGED <<table, lastReg, progs, log, owner, cvars>>
+
+(* the nested routing is complete: the handler of the outer stanza goes on.  Deviation SharedBuffer: the storage *)
+(* of the replay buffer belongs to the multiplexer, the nested stanza was buffered over the outer one           *)
+Resume ==
+  /\ phase = "done" /\ outer # NoFrame
+  /\ nest' = [nest EXCEPT !.wire = wire, !.done = TRUE]
+  /\ phase' = outer.phase /\ el' = outer.el /\ pos' = outer.pos /\ name' = outer.name /\ step' = outer.step
+  /\ chosen' = outer.chosen /\ wire' = outer.wire
+  /\ buf' = IF "SharedBuffer" \in Dev THEN Overwrite(outer.buf, buf) ELSE outer.buf
+  /\ outer' = NoFrame
+  /\ UNCHANGED <<table, lastReg, progs, log, owner, cvars>>
+
+(* "afteruse": the application registers further patterns on a multiplexer that has already routed an element *)
+Reopen ==
+  /\ phase = "done" /\ outer = NoFrame /\ ctor = "afteruse" /\ uses = 0
+  /\ uses' = 1 /\ phase' = "reg"
+  /\ el' = NoEl /\ pos' = 0 /\ name' = NoName /\ step' = 0 /\ chosen' = NoPat
+  /\ buf' = <<>> /\ progs' = <<>> /\ log' = <<>> /\ wire' = <<>> /\ nest' = NoNest /\ owner' = <<>>
+  /\ UNCHANGED <<table, lastReg, outer, ctor>>
 
 Next ==
   \/ \E p \in Universe, h \in Hids \cup {"nil"} : Register(p, h)
   \/ Seal
   \/ \E e \in Elements : Receive(e)
-  \/ Try \/ Router \/ Invoke
+  \/ Try \/ Router \/ Invoke \/ ReenterPre \/ Resume \/ Reopen
 
 Spec == Init /\ [][Next]_vars
 
@@ -286,7 +399,9 @@ Spec == Init /\ [][Next]_vars
 TypeOK ==
   /\ Pats \subseteq Universe /\ \A p \in Pats : table[p] \in Hids
   /\ phase \in {"reg", "idle", "top", "router", "lookup", "invoke", "done"}
-  /\ step \in 0..3 /\ buf \in 0..(Len(Tokens(el)))
+  /\ step \in 0..3 /\ Len(buf) <= Len(Tokens(el))
+  /\ (outer # NoFrame => outer.phase \in {"invoke", "router"} /\ nest.el \in Inner /\ ~nest.done)
+  /\ Len(owner) = Len(log) /\ Len(progs) = Len(log)
 
 (* the names a stanza is looked up under: its payload (iq), each child payload        *)
 (* (message, presence), the empty name for an empty stanza                           *)
@@ -303,8 +418,8 @@ C14_MostSpecific ==
         /\ chosen.kind = (IF Top(Pats, Nm(el.sp, el.lo)) # NoPat THEN "top" ELSE el.kind)
         /\ (chosen.kind # "top" => chosen.type = EffType(el)))
   /\ (phase \in {"router", "done"} /\ el # NoEl =>
-        MostSpecific(Pats, "top", "", Nm(el.sp, el.lo)) = NoPat \/ Len(log) = 1)
-  /\ (phase = "done" /\ Len(log) = 0 /\ el.kind \in StanzaKinds =>
+        MostSpecific(Pats, "top", "", Nm(el.sp, el.lo)) = NoPat \/ Len(MyLog) = 1)
+  /\ (phase = "done" /\ Len(MyLog) = 0 /\ el.kind \in StanzaKinds =>
         \A c \in Relevant(el) : MostSpecific(Pats, el.kind, EffType(el), c) = NoPat)
 
 (* the cascade function and the declarative rule agree on every lookup that can be asked *)
@@ -331,18 +446,22 @@ C14_RegisterRefuses ==
 C14_NoNil == \A p \in Pats : table[p] # "nil"
 
 (* every message/presence handler obtains the stanza from its start element: a       *)
-(* prefix of the complete token stream, as long as it asked for, whatever is buffered *)
+(* prefix of the complete token stream of ITS OWN stanza, as long as it asked for,    *)
+(* whatever is buffered and whatever other stanza was routed meanwhile                *)
 C14_WholeStanza ==
   \A i \in 1..Len(log) :
     log[i].h.kind \in {"msg", "pres"} =>
-      /\ log[i].seen = SubSeq(Tokens(el), 1, Min(progs[i], Len(Tokens(el))))
-      /\ (progs[i] >= 1 => log[i].seen[1] = Tok("S", NoName))
-      /\ (log[i].eof <=> progs[i] > Len(Tokens(el)))
+      LET e == ElOf(owner[i]) IN
+      /\ log[i].seen = SubSeq(Tokens(e), 1, Min(progs[i], Len(Tokens(e))))
+      /\ (progs[i] >= 1 => log[i].seen[1] = StartTok(e))
+      /\ (log[i].eof <=> progs[i] > Len(Tokens(e)))
+(* without the deviation the buffer is always a prefix of the stanza being routed *)
+C14_BufferIsPrefix == Dev = {} => buf = SubSeq(Tokens(el), 1, Len(buf))
 
 (* defaults: service-unavailable for unhandled get/set iq, nothing otherwise *)
 C14_Defaults ==
   phase = "done" =>
-    wire = IF el.kind = "iq" /\ EffType(el) \in {"get", "set"} /\ log = <<>>
+    wire = IF el.kind = "iq" /\ EffType(el) \in {"get", "set"} /\ MyLog = <<>>
            THEN <<SUReply(el)>> ELSE <<>>
 
 (* one invocation per child payload that has a matching pattern, in order; empty     *)
@@ -352,10 +471,14 @@ C14_PerChild ==
     LET ks == IF el.kids = <<>> THEN <<NoName>> ELSE ElemKids(el)
         want == SelectSeq([i \in 1..Len(ks) |-> MostSpecific(Pats, el.kind, EffType(el), ks[i])],
                           LAMBDA h : h # NoPat)
-    IN [i \in 1..Len(log) |-> log[i].h] = want
+    IN [i \in 1..Len(MyLog) |-> MyLog[i].h] = want
 
 (* the machine's outcome is the reference function the vectors are made from *)
+(* (each stanza as it is alone; with a nested routing the whole log is the interleaving Nested describes) *)
 C14_IsDispatch ==
-  phase = "done" => [inv |-> log, wire |-> wire] = Dispatch(Pats, el, progs)
+  phase = "done" =>
+    /\ [inv |-> MyLog, wire |-> wire] = Dispatch(Pats, el, MyProgs)
+    /\ (Depth = 1 => [inv |-> log, wire |-> wire, wire2 |-> nest.wire]
+                       = Nested(Pats, el, Sel(progs, 1), nest.j, nest.el, Sel(progs, 2)))
 
 =============================================================================
